@@ -332,6 +332,15 @@ type outcome struct {
 	Gas   int64    `json:"gas_left"`
 	PC    uint64   `json:"next_pc"`
 	Note  string   `json:"note,omitempty"`
+	// reference only: the implementation's gas may be lower by up to GasSlack (a predicate aborted on
+	// a memory charge: the model does not say whether the unpaid result is held); how the predicate ended
+	GasSlack int64  `json:"gas_slack,omitempty"`
+	PredEnd  string `json:"predicate_end,omitempty"`
+}
+
+// gasAgrees: the implementation's gas must lie in [reference - slack, reference].
+func gasAgrees(ref, impl outcome) bool {
+	return impl.Gas <= ref.Gas && impl.Gas >= ref.Gas-ref.GasSlack
 }
 
 type replayCase struct {
@@ -414,6 +423,9 @@ type report struct {
 	samples    []replayCase
 	lshift     int
 	childExp   int
+	predCases  int
+	predProgs  int
+	predEnds   map[string]int // typed CHECKPREDICATE enumeration: how the predicate stopped
 	seen       map[uint64]struct{}
 	maxDepth   int
 }
@@ -470,6 +482,20 @@ func structuralKey(c *tcase, path, differ string, ref, impl class) string {
 	return k
 }
 
+// gasKey: for CHECKPREDICATE a gas difference is named after the way the predicate stopped and
+// the direction (refund-above = more gas left than the reference allows: gas created).
+func gasKey(c *tcase, path string, ref, impl outcome) string {
+	k := structuralKey(c, path, "gas", ref.Class, impl.Class)
+	if c.op == 0xc0 && ref.PredEnd != "" {
+		dir := "refund-below"
+		if impl.Gas > ref.Gas {
+			dir = "refund-above"
+		}
+		k += ":predicate-" + ref.PredEnd + ":" + dir
+	}
+	return k
+}
+
 // ---------- evaluation of one case ----------
 
 const ample = int64(1000000)
@@ -504,6 +530,16 @@ func (r *report) evaluate(c *tcase) {
 	r.outcomes[string(refOut.Class)]++
 	r.lshift += rm.lshiftTrunc
 	r.childExp += rm.childExp
+	if c.op == 0xc0 && rm.predEnd != "" {
+		k := string(rm.predEnd)
+		if rm.gasSlack > 0 {
+			k += "(unpaid result held or not)"
+		}
+		if r.predEnds == nil {
+			r.predEnds = map[string]int{}
+		}
+		r.predEnds[k]++
+	}
 	r.compare(c, "step", c.limit, refOut, implOut, rm.gasExact)
 
 	if h := c.hash(); true {
@@ -536,7 +572,7 @@ func (r *report) evaluate(c *tcase) {
 	if rcl == cOK && rv.falseResult() {
 		rcl = cFalse
 	}
-	refV := outcome{Class: rcl, Gas: rv.limit}
+	refV := outcome{Class: rcl, Gas: rv.limit, GasSlack: rv.gasSlack, PredEnd: string(rv.predEnd)}
 	ctx := e.context(c.prog, cloneStack(c.data), cloneStack(c.alt))
 	gas, err := vm.Verify(ctx, vl)
 	icl, note := classOf(err, nil)
@@ -547,9 +583,9 @@ func (r *report) evaluate(c *tcase) {
 		r.violation(structuralKey(c, "verify", "class", refV.Class, implV.Class),
 			fmt.Sprintf("vm.Verify of %s: reference says %s, implementation says %s %s", opName(c.op), refV.Class, implV.Class, note),
 			mkReplay(c, "verify", vl, refV, implV, "class"))
-	} else if rv.gasExact && (rcl == cOK || rcl == cFalse || rcl == cRunLimit) && refV.Gas != implV.Gas {
-		r.violation(structuralKey(c, "verify", "gas", refV.Class, implV.Class),
-			fmt.Sprintf("vm.Verify of %s: gas left %d in the reference, %d in the implementation", opName(c.op), refV.Gas, implV.Gas),
+	} else if rv.gasExact && (rcl == cOK || rcl == cFalse || rcl == cRunLimit) && !gasAgrees(refV, implV) {
+		r.violation(gasKey(c, "verify", refV, implV),
+			fmt.Sprintf("vm.Verify of %s on stack %v: gas left %s in the reference, %d in the implementation", opName(c.op), hexes(c.data), gasRange(refV), implV.Gas),
 			mkReplay(c, "verify", vl, refV, implV, "gas"))
 	}
 }
@@ -557,7 +593,7 @@ func (r *report) evaluate(c *tcase) {
 func (r *report) refStep(e *env, c *tcase, limit int64) (outcome, *rvm) {
 	m := &rvm{e: e, prog: c.prog, limit: limit, data: cloneStack(c.data), alt: cloneStack(c.alt), gasExact: true}
 	cl := m.step()
-	o := outcome{Class: cl, Gas: m.limit, PC: m.pc}
+	o := outcome{Class: cl, Gas: m.limit, PC: m.pc, GasSlack: m.gasSlack, PredEnd: string(m.predEnd)}
 	if cl == cOK {
 		o.Data, o.Alt = hexes(m.data), hexes(m.alt)
 	}
@@ -598,7 +634,7 @@ func (r *report) compare(c *tcase, path string, limit int64, ref, impl outcome, 
 		differ = "alt-stack"
 	case ref.Class == cOK && ref.PC != impl.PC:
 		differ = "next-pc"
-	case gasExact && (ref.Class == cOK || ref.Class == cRunLimit) && ref.Gas != impl.Gas:
+	case gasExact && (ref.Class == cOK || ref.Class == cRunLimit) && !gasAgrees(ref, impl):
 		differ = "gas"
 	}
 	if differ == "" {
@@ -606,7 +642,18 @@ func (r *report) compare(c *tcase, path string, limit int64, ref, impl outcome, 
 	}
 	what := fmt.Sprintf("%s on stack %v (alt %v, context %s, limit %d): %s differs - reference %s, implementation %s %s",
 		opName(c.op), hexes(c.data), hexes(c.alt), c.env.name, limit, differ, describe(ref, differ), describe(impl, differ), impl.Note)
-	r.violation(structuralKey(c, path, differ, ref.Class, impl.Class), what, mkReplay(c, path, limit, ref, impl, differ))
+	key := structuralKey(c, path, differ, ref.Class, impl.Class)
+	if differ == "gas" {
+		key = gasKey(c, path, ref, impl)
+	}
+	r.violation(key, what, mkReplay(c, path, limit, ref, impl, differ))
+}
+
+func gasRange(o outcome) string {
+	if o.GasSlack > 0 {
+		return fmt.Sprintf("%d..%d", o.Gas-o.GasSlack, o.Gas)
+	}
+	return fmt.Sprint(o.Gas)
 }
 
 func describe(o outcome, differ string) string {
@@ -620,7 +667,7 @@ func describe(o outcome, differ string) string {
 	case "next-pc":
 		return fmt.Sprint(o.PC)
 	}
-	return fmt.Sprint(o.Gas)
+	return gasRange(o)
 }
 
 func mkReplay(c *tcase, path string, limit int64, ref, impl outcome, differ string) replayCase {
@@ -881,6 +928,135 @@ func (r *report) structuredCheckOutput(t tier, emit func([]byte, [][]byte)) {
 	}
 }
 
+// CHECKPREDICATE: <item>... <n> <predicate> <limit>
+//
+// Every predicate of up to maxLen symbols over a small alphabet that can park items on the alt
+// stack, take them back, consume them, fail by VERIFY and push with a cost that is charged after
+// the push (PROGRAM, ASSET, CAT) or before it (1, DUP); on 0..2 moved items of several sizes;
+// under EVERY predicate limit from 1 to one more than the least limit under which the predicate
+// no longer runs out of gas (so it stops at every step, on every kind of charge), and limit 0
+// (the predicate inherits the parent's gas). Gas left, both stacks and the error class are
+// compared with the reference, whose refund rule is
+//
+//	refund = min(predicate's unused limit + memory of its data stack + memory of its alt stack, given).
+func (r *report) structuredCheckPredicate(t tier, shard, shards int, stop func() bool) {
+	alphabet := [][]byte{{0x6b}, {0x6c}, {0x51}, {0x75}, {0x76}, {0x69}, {0xc4}, {0xc2}, {0x7e}}
+	wide := append(append([][]byte{}, alphabet...), []byte{0x00}, []byte{0x6a}, []byte{0x82}, []byte{0x7c}, []byte{0xca}, []byte{0x01, 0x05})
+	sizes := [][]byte{{}, {1}, seq(40)}
+	maxLimit := int64(64)
+	progs := [][]byte{{0xc0}}
+	envs := []*env{envFull1}
+	if t.thorough {
+		sizes = append(sizes, seq(200))
+		maxLimit = 320
+		progs = append(progs, append([]byte{0xc0}, rep(0x61, 40)...)) // a longer program: PROGRAM pushes 41 bytes
+		envs = append(envs, envAbsent)                                // ASSET aborts with a context error
+	}
+	var preds [][]byte
+	seqs := func(al [][]byte, n int) {
+		idx := make([]int, n)
+		for {
+			var p []byte
+			for _, i := range idx {
+				p = append(p, al[i]...)
+			}
+			preds = append(preds, p)
+			i := 0
+			for ; i < n; i++ {
+				idx[i]++
+				if idx[i] < len(al) {
+					break
+				}
+				idx[i] = 0
+			}
+			if i == n {
+				return
+			}
+		}
+	}
+	for n := 0; n <= 3; n++ {
+		if t.thorough {
+			seqs(wide, n)
+		} else {
+			seqs(alphabet, n)
+		}
+	}
+	if t.thorough {
+		seqs(alphabet, 4)
+	}
+	var moved [][][]byte
+	moved = append(moved, [][]byte{})
+	for _, a := range sizes {
+		moved = append(moved, [][]byte{a})
+	}
+	few := len(moved) // the sets of at most one item ...
+	moved = append(moved, [][]byte{seq(40), seq(40)})
+	few++ // ... and one pair
+	for _, a := range sizes {
+		for _, b := range sizes {
+			if !t.thorough && (len(a) == 0 || len(b) == 0) {
+				continue // quick: pairs over the non-empty sizes only
+			}
+			if len(a) == 40 && len(b) == 40 {
+				continue // listed above
+			}
+			moved = append(moved, [][]byte{a, b})
+		}
+	}
+	num := func(n int64) []byte { return numBytes(big.NewInt(n)) }
+	r.predProgs = len(preds)
+	for pi, pred := range preds {
+		if pi%shards != shard {
+			continue
+		}
+		if stop() {
+			return
+		}
+		symbols := 0
+		for pc := 0; pc < len(pred); pc++ {
+			symbols++
+			if pred[pc] == 0x01 {
+				pc++
+			}
+		}
+		for mi, mv := range moved {
+			if symbols > 3 && mi >= few {
+				continue // (thorough) the longest predicates run on the first `few` item sets
+			}
+			for gi, prog := range progs {
+				for ei, e := range envs {
+					if (gi > 0 || ei > 0) && symbols > 2 {
+						continue // (thorough) the second program shape and the empty context: predicates of <= 2 symbols
+					}
+					// least sufficient predicate limit, by the reference, on these items
+					ee := *e
+					ee.code = prog
+					limits := []int64{0}
+					for l := int64(1); l <= maxLimit; l++ {
+						limits = append(limits, l)
+						ch := &rvm{e: &ee, prog: pred, limit: l, child: true, gasExact: true, data: cloneStack(mv)}
+						if ch.run() != cRunLimit {
+							limits = append(limits, l+1)
+							break
+						}
+					}
+					for _, l := range limits {
+						st := append(cloneStack(mv), num(int64(len(mv))), pred, num(l))
+						r.predCases++
+						r.evaluate(&tcase{op: 0xc0, prog: prog, data: st, alt: nil, env: e, limit: ample})
+						if t.thorough && len(mv) > 0 && l%4 == 1 {
+							// an unrelated item below the moved ones, and a marker on the parent's alt stack
+							st2 := append([][]byte{{0x77}}, st...)
+							r.predCases++
+							r.evaluate(&tcase{op: 0xc0, prog: prog, data: st2, alt: [][]byte{{0xa1, 0xa2}}, env: e, limit: ample})
+						}
+					}
+				}
+			}
+		}
+	}
+}
+
 // ---------- main ----------
 
 func main() {
@@ -924,7 +1100,47 @@ func main() {
 			reports[op] = r
 		}(o)
 	}
+	// the typed CHECKPREDICATE enumeration, sharded over the predicates; merged into the opcode's report below
+	const predShards = 24
+	predReports := make([]*report, predShards)
+	for i := 0; i < predShards; i++ {
+		wg.Add(1)
+		sem <- struct{}{}
+		go func(i int) {
+			defer wg.Done()
+			defer func() { <-sem }()
+			r := newReport()
+			r.structuredCheckPredicate(t, i, predShards, stop)
+			r.seen = nil
+			predReports[i] = r
+		}(i)
+	}
 	wg.Wait()
+	for _, pr := range predReports {
+		r := reports[0xc0]
+		r.evals += pr.evals
+		r.cases += pr.cases
+		r.nontrivial += pr.nontrivial
+		r.lshift += pr.lshift
+		r.childExp += pr.childExp
+		r.predCases += pr.predCases
+		r.predProgs = pr.predProgs
+		for k, n := range pr.outcomes {
+			r.outcomes[k] += n
+		}
+		if r.predEnds == nil {
+			r.predEnds = map[string]int{}
+		}
+		for k, n := range pr.predEnds {
+			r.predEnds["typed:"+k] += n
+		}
+		for _, v := range pr.viols {
+			r.violation(v.key, v.what, v.rc)
+		}
+		if pr.maxDepth > r.maxDepth {
+			r.maxDepth = pr.maxDepth
+		}
+	}
 
 	opsWithOK, perClass := 0, map[string]int{}
 	neverOK := []string{}
@@ -935,6 +1151,11 @@ func main() {
 		run.Add("distinct_nontrivial", r.nontrivial)
 		run.Add("obs_lshift_bits_lost_but_result_accepted", r.lshift)
 		run.Add("obs_expansion_opcode_run_inside_predicate_of_v1_tx", r.childExp)
+		if op == 0xc0 {
+			run.Set("checkpredicate_typed_cases", r.predCases)
+			run.Set("checkpredicate_typed_predicates", r.predProgs)
+			run.Set("checkpredicate_predicate_ends", r.predEnds)
+		}
 		if r.outcomes[string(cOK)] > 0 {
 			opsWithOK++
 		} else {
@@ -970,13 +1191,14 @@ func main() {
 	run.Set("opcodes_never_successful", neverOK)
 	run.Set("boundary_items", len(setB))
 	run.Set("rule", "cases = (opcode with complete/truncated immediate forms) x (data stack of depth 0..arity"+map[bool]string{true: "+1", false: ""}[t.thorough]+
-		": top positions over the 16-item boundary set plus op-specific extras, deeper positions over a reduced set; typed enumerations for CHECKSIG/CHECKMULTISIG/CHECKOUTPUT) x (alt stack variants) x (context variants: fields present/absent, tx version nil/1/2). "+
+		": top positions over the 16-item boundary set plus op-specific extras, deeper positions over a reduced set; typed enumerations for CHECKSIG/CHECKMULTISIG/CHECKOUTPUT/CHECKPREDICATE - the last one: every predicate of <= 3 symbols over {TOALTSTACK, FROMALTSTACK, 1, DROP, DUP, VERIFY, PROGRAM, ASSET, CAT} (thorough: also 0, FAIL, SIZE, SWAP, ENTRYID, DATA_1, and <= 4 symbols over the first nine) on 0..2 moved items of 0, 1, 40 (thorough: 200) bytes under every predicate limit from 1 to one more than the least sufficient one, and limit 0) x (alt stack variants) x (context variants: fields present/absent, tx version nil/1/2). "+
 		"Each case is executed as one instruction through vm.VerifStep (ample limit, and limit 0 when it succeeds) and as a program through vm.Verify. "+
 		"distinct_nontrivial = distinct (program, stack, alt, context) whose reference outcome is past operand fetching: not underflow / short-program / disallowed.")
 	run.Assume("crypto/ed25519, crypto/sha256, x/crypto/sha3 and x/crypto/ripemd160 are trusted; signature validity is known by construction of the material, hash primitives are anchored on their empty-string digests")
 	run.Assume("error precedence inside one instruction follows operand order from the top of the stack (each operand is validated when it is taken)")
 	run.Assume("LSHIFT is read as a 256-bit register shift (bits shifted out are lost before the < 2^255 check); occurrences are counted in obs_lshift_bits_lost_but_result_accepted, not asserted against")
-	run.Assume("the predicate of CHECKPREDICATE may run expansion opcodes even in a version-1 transaction (observed behaviour, counted, not asserted against); gas is not compared when a predicate ends in an error (what an aborted instruction leaves behind is not documented)")
+	run.Assume("the predicate of CHECKPREDICATE may run expansion opcodes even in a version-1 transaction (observed behaviour, counted, not asserted against)")
+	run.Assume("a predicate hands back min(its unused run limit + memory of its data stack + memory of its alt stack, its limit + memory of the items moved to it), also when it aborts: the execution cost is charged first, operands are taken in order from the top and are gone, the rest is left alone. Open point: an instruction that aborts on its final memory charge may or may not hold its unpaid result; both readings are computed and the implementation's gas must lie between them (checkpredicate_predicate_ends counts those cases); inside a nested predicate that ambiguity ends the gas comparison")
 	run.Finish()
 }
 
